@@ -217,6 +217,80 @@ func historyAlignment(e *env, root string) *finding {
 	return walk(root, 0)
 }
 
+// indexCorrespondence: "index entries name the rewritten children". The result index
+// has the source's entries in the source's order (only to-oci-referrers removes
+// entries); entries that named the same child in the source name the same child in
+// the result (the same input under the same options), and the child an entry names
+// is the one derived from the source child of that entry (its config has that
+// image's architecture / variant; the generator gives every image its own).
+func indexCorrespondence(e *env, root string) *finding {
+	b := e.b
+	if !b.IsIndex || hasKind(e.c, func(k string) bool { return k == "to-oci-referrers" }) {
+		return nil
+	}
+	v := e.tgt.view()
+	read := func(d string) *gManifest {
+		body, _, ok := v.Get(d)
+		if !ok {
+			return nil
+		}
+		var m gManifest
+		if json.Unmarshal(body, &m) != nil {
+			return nil
+		}
+		return &m
+	}
+	idx, idxDig := read(root), root
+	if b.Nested && idx != nil && idx.Manifests != nil && len(*idx.Manifests) == 1 {
+		idxDig = (*idx.Manifests)[0].Digest
+		idx = read(idxDig)
+	}
+	if idx == nil || idx.Manifests == nil {
+		return fnd("index-result-is-not-an-index", "the source is an index, the result %s is not", root)
+	}
+	res := *idx.Manifests
+	if len(res) != len(b.EntryImage) {
+		return fnd("index-entry-count-changed", "the source index has %d entries, the result index %s has %d (no option removes entries)", len(b.EntryImage), idxDig, len(res))
+	}
+	for i := range res {
+		for j := i + 1; j < len(res); j++ {
+			if b.EntryImage[i] == b.EntryImage[j] && res[i].Digest != res[j].Digest {
+				return fnd("index-duplicate-entries-diverge", "entries %d and %d of the source index name the same child, in the result index %s they name %s and %s", i, j, idxDig, res[i].Digest, res[j].Digest)
+			}
+		}
+	}
+	if hasKind(e.c, func(k string) bool { return k == "config-platform" }) {
+		return nil
+	}
+	for i, en := range res {
+		img := b.EntryImage[i]
+		if img < 0 || img >= len(e.c.Images) {
+			continue
+		}
+		m := read(en.Digest)
+		if m == nil || m.Config == nil {
+			continue // reported by the closure audit
+		}
+		cb, _, ok := v.Get(m.Config.Digest)
+		if !ok {
+			continue
+		}
+		var cfg struct {
+			Architecture string `json:"architecture"`
+			Variant      string `json:"variant"`
+		}
+		if json.Unmarshal(cb, &cfg) != nil {
+			continue
+		}
+		want := platOf(e.c.Images[img].Arch)
+		if cfg.Architecture != want.Architecture || cfg.Variant != want.Variant {
+			return fnd("index-entry-names-child-of-other-entry", "entry %d of the result index %s names %s, whose config is %s/%s; the source entry at that position names the %s/%s image",
+				i, idxDig, en.Digest, cfg.Architecture, cfg.Variant, want.Architecture, want.Variant)
+		}
+	}
+	return nil
+}
+
 func keysOf(m map[string]bool) []string {
 	out := []string{}
 	for k := range m {
@@ -309,6 +383,10 @@ func evaluate(c Case) outcome {
 		return out
 	}
 	if f := historyAlignment(e, dig); f != nil {
+		out.F = f
+		return out
+	}
+	if f := indexCorrespondence(e, dig); f != nil {
 		out.F = f
 		return out
 	}
@@ -732,6 +810,21 @@ func check(c Case, ev *evid.Collector) *evid.Violation {
 	}
 	if c.Nested && c.Index != "" {
 		classes = append(classes, "shape:nested-index")
+	}
+	if c.Index != "" && c.EntryOrder != nil {
+		classes = append(classes, "shape:index-duplicate-child-digest")
+		last := c.EntryOrder[len(c.EntryOrder)-1]
+		notLast := false
+		for i, x := range c.EntryOrder[:len(c.EntryOrder)-1] {
+			for _, y := range c.EntryOrder[i+1:] {
+				if x == y && !(y == last && i+2 == len(c.EntryOrder) && false) {
+					notLast = notLast || i+1 < len(c.EntryOrder)-1 || c.Attest
+				}
+			}
+		}
+		if notLast {
+			classes = append(classes, "shape:index-duplicate-not-last")
+		}
 	}
 	if c.IdxNoMT || (c.Artifact == nil && c.Images[0].NoMTField) {
 		classes = append(classes, "shape:no-mediatype-field")
